@@ -3,6 +3,7 @@ CONSTANTS
   MaxTime = 3
   Cap0 = 0
   Faults = TRUE
+  CapMode = "fixed"
   GetMode = "get"
   Emit = FALSE
 INIT Init
